@@ -163,3 +163,35 @@ Proof.
   destruct (add_terminator true rows) as [r'|] eqn:E; [|discriminate].
   intros H. injection H as <-. exact (add_terminator_spec _ _ E).
 Qed.
+
+(* ---- C07: cutting a stage range at any increasing list of cut points (the measure starts) and concatenating the
+   pieces gives the rows of the whole range: every line once, in order *)
+From Coq Require Import Sorted Lia.
+Fixpoint seg_rows (d : doc) (o : opts) (cuts : list nat) (last : nat) : res (list (list string)) :=
+  match cuts with
+  | [] => Ok []
+  | c :: rest =>
+    let nxt := match rest with c' :: _ => c' | [] => last end in
+    match main_rows d o c (nxt - c), seg_rows d o rest last with
+    | Ok r1, Ok r2 => Ok (r1 ++ r2)%list
+    | Err x, _ => Err x
+    | Ok _, Err x => Err x
+    end
+  end.
+
+Theorem segments_partition d o last : forall cuts c1 rest, cuts = c1 :: rest -> StronglySorted lt cuts ->
+  Forall (fun c => c <= last) cuts -> seg_rows d o cuts last = main_rows d o c1 (last - c1).
+Proof.
+  induction cuts as [|c cuts IH]; intros c1 rest E S F; [discriminate|]. injection E as -> ->.
+  destruct rest as [|c2 rest'].
+  - cbn [seg_rows]. destruct (main_rows d o c1 (last - c1)); [now rewrite app_nil_r | reflexivity].
+  - inversion S as [|? ? S' Hlt]; subst. inversion F as [|? ? Hc1 F']; subst.
+    assert (H12 : c1 < c2) by (inversion Hlt; assumption).
+    assert (Hc2 : c2 <= last) by (inversion F'; assumption).
+    change (seg_rows d o (c1 :: c2 :: rest') last) with
+      (match main_rows d o c1 (c2 - c1), seg_rows d o (c2 :: rest') last with
+       | Ok r1, Ok r2 => Ok (r1 ++ r2)%list | Err x, _ => Err x | Ok _, Err x => Err x end).
+    rewrite (IH c2 rest' eq_refl S' F').
+    replace (last - c1) with ((c2 - c1) + (last - c2)) by lia.
+    rewrite (main_rows_split d o (c2 - c1) (last - c2) c1). replace (c1 + (c2 - c1)) with c2 by lia. reflexivity.
+Qed.
